@@ -372,3 +372,78 @@ Proof.
   apply mem_spec in Hr. destruct Hr as [p [Hin Hp]].
   exact (cover2_sound _ _ _ _ _ (H _ Hin) r Hp).
 Qed.
+
+(* ------------------------------------------- disjointness of two SORTED range lists, linear *)
+(* ranges sorted by lo, every lo above the previous hi *)
+Fixpoint sorted_rng (b : N) (l : ranges) : bool :=
+  match l with
+  | [] => true
+  | (lo, hi) :: t => (b <=? lo) && (lo <=? hi) && sorted_rng (hi + 1) t
+  end.
+
+Lemma sorted_rng_lower q : forall l b0, sorted_rng b0 l = true -> In q l -> b0 <= fst q.
+Proof.
+  induction l as [|[l0 h0] l IH]; intros b0 Hs Hq; [destruct Hq|].
+  cbn [sorted_rng] in Hs. rewrite !andb_true_iff, !N.leb_le in Hs. destruct Hs as [[A B] C].
+  destruct Hq as [Hq|Hq].
+  - subst q. cbn [fst]. exact A.
+  - specialize (IH _ C Hq). lia.
+Qed.
+
+Lemma sorted_rng_head lo hi t b q :
+  sorted_rng b ((lo, hi) :: t) = true -> In q ((lo, hi) :: t) -> lo <= fst q.
+Proof.
+  intros Hs Hq. destruct Hq as [Hq|Hq].
+  - subst q. cbn [fst]. apply N.le_refl.
+  - cbn [sorted_rng] in Hs. rewrite !andb_true_iff, !N.leb_le in Hs. destruct Hs as [[A B] C].
+    pose proof (sorted_rng_lower q _ _ C Hq). lia.
+Qed.
+
+Lemma sorted_rng_tail lo hi t b : sorted_rng b ((lo, hi) :: t) = true -> sorted_rng (hi + 1) t = true.
+Proof. cbn [sorted_rng]. rewrite !andb_true_iff. tauto. Qed.
+
+Fixpoint disj_walk (fuel : nat) (a b : ranges) : bool :=
+  match fuel with
+  | O => false
+  | S f =>
+      match a, b with
+      | [], _ => true
+      | _, [] => true
+      | (al, ah) :: a', (bl, bh) :: b' =>
+          if ah <? bl then disj_walk f a' b
+          else if bh <? al then disj_walk f a b'
+          else false
+      end
+  end.
+
+Lemma disj_walk_sound fuel : forall a b x y,
+  sorted_rng x a = true -> sorted_rng y b = true -> disj_walk fuel a b = true ->
+  forall r, mem r a = true -> mem r b = true -> False.
+Proof.
+  induction fuel as [|f IH]; intros a b x y Ha Hb H r Hra Hrb; [discriminate|].
+  destruct a as [|[al ah] a']; [discriminate|]. destruct b as [|[bl bh] b']; [discriminate|].
+  cbn [disj_walk] in H.
+  destruct (ah <? bl) eqn:E1.
+  - apply N.ltb_lt in E1. rewrite mem_cons in Hra. apply orb_true_iff in Hra. destruct Hra as [Hra|Hra].
+    + apply in_rng_spec in Hra. cbn [fst snd] in Hra.
+      apply mem_spec in Hrb. destruct Hrb as [q [Hq Hqr]].
+      pose proof (sorted_rng_head _ _ _ _ _ Hb Hq). lia.
+    + exact (IH _ _ _ _ (sorted_rng_tail _ _ _ _ Ha) Hb H r Hra Hrb).
+  - destruct (bh <? al) eqn:E2; [|discriminate]. apply N.ltb_lt in E2.
+    rewrite mem_cons in Hrb. apply orb_true_iff in Hrb. destruct Hrb as [Hrb|Hrb].
+    + apply in_rng_spec in Hrb. cbn [fst snd] in Hrb.
+      apply mem_spec in Hra. destruct Hra as [q [Hq Hqr]].
+      pose proof (sorted_rng_head _ _ _ _ _ Ha Hq). lia.
+    + exact (IH _ _ _ _ Ha (sorted_rng_tail _ _ _ _ Hb) H r Hra Hrb).
+Qed.
+
+Definition disjoint_sorted (a b : ranges) : bool :=
+  sorted_rng 0 a && sorted_rng 0 b && disj_walk (S (List.length a + List.length b)) a b.
+
+Theorem disjoint_sorted_sound a b : disjoint_sorted a b = true ->
+  forall r, mem r a = true -> mem r b = false.
+Proof.
+  unfold disjoint_sorted. rewrite !andb_true_iff. intros [[Ha Hb] H] r Hr.
+  destruct (mem r b) eqn:E; [|reflexivity].
+  exfalso. exact (disj_walk_sound _ _ _ _ _ Ha Hb H r Hr E).
+Qed.
